@@ -227,7 +227,12 @@ async def judge_req(rig, conn, tap, filters, accepted, counters, shape):
 
 
 async def run_store(backend, store_seed, singles, multis, counters, explicit=None):
-    rig = R.Rig(backend=backend, config={"analysis_delay": 0})
+    cfg = {"analysis_delay": 0}
+    if store_seed % 2 == 1 or (explicit or {}).get("output_validator"):
+        # with an output validator configured (one that lets everything through) the answers are the same
+        cfg["output_validator"] = "vf.ov.check"
+        counters["stores_with_output_validator"] = counters.get("stores_with_output_validator", 0) + 1
+    rig = R.Rig(backend=backend, config=cfg)
     await rig.start()
     viols, nontrivial, samples = [], [], []
     try:
@@ -271,6 +276,10 @@ async def run_store(backend, store_seed, singles, multis, counters, explicit=Non
                 samples.append(sample)
     finally:
         await rig.close()
+    if "output_validator" in cfg:
+        for x in viols:
+            if isinstance(x.get("replay"), dict):
+                x["replay"]["output_validator"] = True
     return viols, nontrivial, samples
 
 
